@@ -30,6 +30,12 @@ fn col_text(v: u32, j: usize) -> String {
 /// items carry a drop counter (C11): `DROPS[v]` = how often the item with value `v` was dropped
 const NIDS: usize = 4096;
 static DROPS: [AtomicU32; NIDS] = [const { AtomicU32::new(0) }; NIDS];
+/// C09 caller contract of `get_unchecked`: indices whose `active` store has been reached by some writer of
+/// this history (a superset of the published entries of the current stream), and the first index handed
+/// to `get_unchecked` outside that set (index + 1; 0 = none)
+const NPUB: usize = 1 << 14;
+static PUBLISHED: [AtomicBool; NPUB] = [const { AtomicBool::new(false) }; NPUB];
+static UNPUB: AtomicU64 = AtomicU64::new(0);
 pub struct Tracked(u32);
 impl Drop for Tracked {
     fn drop(&mut self) {
@@ -197,7 +203,21 @@ fn run_history(rng: &mut Rng, mode: &str, _k: usize) -> String {
     });
     {
         let g = gates.clone();
+        for p in PUBLISHED.iter() {
+            p.store(false, Ordering::SeqCst);
+        }
+        UNPUB.store(0, Ordering::SeqCst);
         nucleo::verif::set_callback(Some(Arc::new(move |site, _arg| match site {
+            "push.store_active" | "extend.store_active" => {
+                if (_arg as usize) < NPUB {
+                    PUBLISHED[_arg as usize].store(true, Ordering::SeqCst);
+                }
+            }
+            "get_unchecked.load_entries" => {
+                if (_arg as usize) < NPUB && !PUBLISHED[_arg as usize].load(Ordering::SeqCst) {
+                    let _ = UNPUB.compare_exchange(0, _arg + 1, Ordering::SeqCst, Ordering::SeqCst);
+                }
+            }
             "run.score_item" => {
                 let k = g.hold_item.load(Ordering::SeqCst);
                 if k != 0 {
@@ -604,9 +624,13 @@ fn run_history(rng: &mut Rng, mode: &str, _k: usize) -> String {
     drop(h);
     let final_drops = dropped_str();
     format!(
-        "H pool={} cols={} items={} pats={} scores={} fresh={} alldropped={} ev={}",
+        "H pool={} cols={} unpub={} items={} pats={} scores={} fresh={} alldropped={} ev={}",
         pool,
         cols,
+        match UNPUB.load(Ordering::SeqCst) {
+            0 => "-".to_string(),
+            k => (k - 1).to_string(),
+        },
         if items.is_empty() { "-".to_string() } else { items.join(",") },
         pats.join(","),
         if scores.is_empty() { "-".to_string() } else { scores.join(",") },
